@@ -80,13 +80,14 @@ def run(name, props, scratch=True):
     props = props or [meta["property"]]
     env = ""
     if scratch:
-        wt = "/tmp/seedrun/repo"
+        root = os.environ.get("SEEDRUN_DIR", "/tmp/seedrun")      # one directory per parallel lane
+        wt = root + "/repo"
         if not os.path.exists(wt):
-            os.makedirs("/tmp/seedrun", exist_ok=True)
+            os.makedirs(root, exist_ok=True)
             sh("git -C /repo worktree add --detach %s HEAD" % wt)
         sh("git checkout -q --detach %s && git checkout -- . " % subprocess.check_output("git -C /repo rev-parse HEAD", shell=True, text=True).strip(), cwd=wt)
         target = wt
-        env = "BFL_REPO=%s BFL_BUILD_DIR=/tmp/seedrun/build " % wt
+        env = "BFL_REPO=%s BFL_BUILD_DIR=%s/build " % (wt, root)
     else:
         target = "/repo"
         rc, o = sh("git -C /repo status --porcelain --untracked-files=no")
